@@ -50,6 +50,7 @@ package pkg
 //@ extern axiom od_strip_step: forall v RV {strip(rv_elem(v))} :: (v.kind == 22 || v.kind == 20) ==> strip(v) == strip(rv_elem(v))
 
 //@ func GetValueElem(val) (r)
+//@   isfunc
 //@   serves C19 C05 C04
 //@   opt axioms=od_strip_base,od_strip_step
 //@   nopanic
@@ -57,50 +58,50 @@ package pkg
 //@   ensures r.kind != 22 && r.kind != 20
 
 //@ func EvaluateGreaterThan(left, right) (res, err)
+//@   isfunc
 //@   serves C19 C05
 //@   ints bv
-//@   requires ordered(strip(left), strip(right))
-//@   nopanic
-//@   ensures err == nil && res.kind == 1 && res.b == (cmp3(strip(left), strip(right)) > 0)
+//@   panics_only_if !((ordered(strip(left), strip(right))))
+//@   ensures ((ordered(strip(left), strip(right)))) ==> (err == nil && res.kind == 1 && res.b == (cmp3(strip(left), strip(right)) > 0))
 
 //@ func EvaluateLesserThan(left, right) (res, err)
+//@   isfunc
 //@   serves C19 C05
 //@   ints bv
-//@   requires ordered(strip(left), strip(right))
-//@   nopanic
-//@   ensures err == nil && res.kind == 1 && res.b == (cmp3(strip(left), strip(right)) < 0)
+//@   panics_only_if !((ordered(strip(left), strip(right))))
+//@   ensures ((ordered(strip(left), strip(right)))) ==> (err == nil && res.kind == 1 && res.b == (cmp3(strip(left), strip(right)) < 0))
 
 //@ func EvaluateGreaterThanEqual(left, right) (res, err)
+//@   isfunc
 //@   serves C19 C05
 //@   ints bv
-//@   requires ordered(strip(left), strip(right))
-//@   nopanic
-//@   ensures err == nil && res.kind == 1 && res.b == (cmp3(strip(left), strip(right)) >= 0)
+//@   panics_only_if !((ordered(strip(left), strip(right))))
+//@   ensures ((ordered(strip(left), strip(right)))) ==> (err == nil && res.kind == 1 && res.b == (cmp3(strip(left), strip(right)) >= 0))
 
 //@ func EvaluateLesserThanEqual(left, right) (res, err)
+//@   isfunc
 //@   serves C19 C05
 //@   ints bv
-//@   requires ordered(strip(left), strip(right))
-//@   nopanic
-//@   ensures err == nil && res.kind == 1 && res.b == (cmp3(strip(left), strip(right)) <= 0)
+//@   panics_only_if !((ordered(strip(left), strip(right))))
+//@   ensures ((ordered(strip(left), strip(right)))) ==> (err == nil && res.kind == 1 && res.b == (cmp3(strip(left), strip(right)) <= 0))
 
 //@ func EvaluateEqual(left, right) (res, err)
+//@   isfunc
 //@   serves C19 C05
 //@   ints bv
-//@   requires ordered(strip(left), strip(right)) || bothBool(strip(left), strip(right))
-//@   nopanic
-//@   ensures err == nil && res.kind == 1
-//@   ensures ordered(strip(left), strip(right)) ==> res.b == (cmp3(strip(left), strip(right)) == 0)
-//@   ensures bothBool(strip(left), strip(right)) ==> res.b == (strip(left).b == strip(right).b)
+//@   panics_only_if !((ordered(strip(left), strip(right)) || bothBool(strip(left), strip(right))))
+//@   ensures ((ordered(strip(left), strip(right)) || bothBool(strip(left), strip(right)))) ==> (err == nil && res.kind == 1)
+//@   ensures ((ordered(strip(left), strip(right)) || bothBool(strip(left), strip(right)))) ==> (ordered(strip(left), strip(right)) ==> res.b == (cmp3(strip(left), strip(right)) == 0))
+//@   ensures ((ordered(strip(left), strip(right)) || bothBool(strip(left), strip(right)))) ==> (bothBool(strip(left), strip(right)) ==> res.b == (strip(left).b == strip(right).b))
 
 //@ func EvaluateNotEqual(left, right) (res, err)
+//@   isfunc
 //@   serves C19 C05
 //@   ints bv
-//@   requires ordered(strip(left), strip(right)) || bothBool(strip(left), strip(right))
-//@   nopanic
-//@   ensures err == nil && res.kind == 1
-//@   ensures ordered(strip(left), strip(right)) ==> res.b == (cmp3(strip(left), strip(right)) != 0)
-//@   ensures bothBool(strip(left), strip(right)) ==> res.b == (strip(left).b != strip(right).b)
+//@   panics_only_if !((ordered(strip(left), strip(right)) || bothBool(strip(left), strip(right))))
+//@   ensures ((ordered(strip(left), strip(right)) || bothBool(strip(left), strip(right)))) ==> (err == nil && res.kind == 1)
+//@   ensures ((ordered(strip(left), strip(right)) || bothBool(strip(left), strip(right)))) ==> (ordered(strip(left), strip(right)) ==> res.b == (cmp3(strip(left), strip(right)) != 0))
+//@   ensures ((ordered(strip(left), strip(right)) || bothBool(strip(left), strip(right)))) ==> (bothBool(strip(left), strip(right)) ==> res.b == (strip(left).b != strip(right).b))
 
 // ---- C19 as lemmas over the six contracts above (they all share cmp3) -------------------------------------
 //@ lemma[C19] cmp3_trichotomy: forall l RV, r RV :: cmp3(l, r) == -1 || cmp3(l, r) == 0 || cmp3(l, r) == 1
@@ -135,86 +136,97 @@ package pkg
 //@ pure func fmtNum(v RV) string { return ite(class(v) == 1, fmt_d_int(v.bits), ite(class(v) == 2, fmt_d_uint(v.bits), fmt_f_F64(v.f))) }
 
 //@ func EvaluateMultiplication(left, right) (res, err)
+//@   isfunc
 //@   serves C05
 //@   ints bv
-//@   requires wfRV(strip(left)) && wfRV(strip(right)) && isNum(strip(left)) && isNum(strip(right))
-//@   nopanic
-//@   ensures err == nil
-//@   ensures bothInt(strip(left), strip(right)) ==> res.kind == intResKind(strip(left), strip(right)) && res.bits == strip(left).bits * strip(right).bits
-//@   ensures anyFloat(strip(left), strip(right)) ==> res.kind == 14 && res.f == toF(strip(left)) * toF(strip(right))
+//@   panics_only_if !((wfRV(strip(left)) && wfRV(strip(right)) && isNum(strip(left)) && isNum(strip(right))))
+//@   ensures ((wfRV(strip(left)) && wfRV(strip(right)) && isNum(strip(left)) && isNum(strip(right)))) ==> (err == nil)
+//@   ensures ((wfRV(strip(left)) && wfRV(strip(right)) && isNum(strip(left)) && isNum(strip(right)))) ==> (bothInt(strip(left), strip(right)) ==> res.kind == intResKind(strip(left), strip(right)) && res.bits == strip(left).bits * strip(right).bits)
+//@   ensures ((wfRV(strip(left)) && wfRV(strip(right)) && isNum(strip(left)) && isNum(strip(right)))) ==> (anyFloat(strip(left), strip(right)) ==> res.kind == 14 && res.f == toF(strip(left)) * toF(strip(right)))
 
 //@ func EvaluateSubtraction(left, right) (res, err)
+//@   isfunc
 //@   serves C05
 //@   ints bv
-//@   requires wfRV(strip(left)) && wfRV(strip(right)) && isNum(strip(left)) && isNum(strip(right))
-//@   nopanic
-//@   ensures err == nil
-//@   ensures bothInt(strip(left), strip(right)) ==> res.kind == intResKind(strip(left), strip(right)) && res.bits == strip(left).bits - strip(right).bits
-//@   ensures anyFloat(strip(left), strip(right)) ==> res.kind == 14 && res.f == toF(strip(left)) - toF(strip(right))
+//@   panics_only_if !((wfRV(strip(left)) && wfRV(strip(right)) && isNum(strip(left)) && isNum(strip(right))))
+//@   ensures ((wfRV(strip(left)) && wfRV(strip(right)) && isNum(strip(left)) && isNum(strip(right)))) ==> (err == nil)
+//@   ensures ((wfRV(strip(left)) && wfRV(strip(right)) && isNum(strip(left)) && isNum(strip(right)))) ==> (bothInt(strip(left), strip(right)) ==> res.kind == intResKind(strip(left), strip(right)) && res.bits == strip(left).bits - strip(right).bits)
+//@   ensures ((wfRV(strip(left)) && wfRV(strip(right)) && isNum(strip(left)) && isNum(strip(right)))) ==> (anyFloat(strip(left), strip(right)) ==> res.kind == 14 && res.f == toF(strip(left)) - toF(strip(right)))
 
 // `/` always yields the real (float64) quotient, also for two integers
 //@ func EvaluateDivision(left, right) (res, err)
+//@   isfunc
 //@   serves C05
 //@   ints bv
-//@   requires wfRV(strip(left)) && wfRV(strip(right)) && isNum(strip(left)) && isNum(strip(right))
-//@   nopanic
-//@   ensures err == nil && res.kind == 14 && res.f == toF(strip(left)) / toF(strip(right))
+//@   panics_only_if !((wfRV(strip(left)) && wfRV(strip(right)) && isNum(strip(left)) && isNum(strip(right))))
+//@   ensures ((wfRV(strip(left)) && wfRV(strip(right)) && isNum(strip(left)) && isNum(strip(right)))) ==> (err == nil && res.kind == 14 && res.f == toF(strip(left)) / toF(strip(right)))
 
 // `%`: integers only, Go's truncated remainder on the int64 reading (unsigned operands inside the int64 range,
 // divisor non-zero: the property's "free of overflow and division by zero")
 //@ func EvaluateModulo(left, right) (res, err)
+//@   isfunc
 //@   serves C05
 //@   ints bv
-//@   requires wfRV(strip(left)) && wfRV(strip(right)) && bothInt(strip(left), strip(right)) && strip(right).bits != bv(0)
-//@   requires (class(strip(left)) == 2 ==> strip(left).bits >= bv(0)) && (class(strip(right)) == 2 ==> strip(right).bits >= bv(0))
-//@   nopanic
-//@   ensures err == nil && res.kind == 6 && res.bits == srem(strip(left).bits, strip(right).bits)
+//@   panics_only_if !((wfRV(strip(left)) && wfRV(strip(right)) && bothInt(strip(left), strip(right)) && strip(right).bits != bv(0)) && ((class(strip(left)) == 2 ==> strip(left).bits >= bv(0)) && (class(strip(right)) == 2 ==> strip(right).bits >= bv(0))))
+//@   ensures ((wfRV(strip(left)) && wfRV(strip(right)) && bothInt(strip(left), strip(right)) && strip(right).bits != bv(0)) && ((class(strip(left)) == 2 ==> strip(left).bits >= bv(0)) && (class(strip(right)) == 2 ==> strip(right).bits >= bv(0)))) ==> (err == nil && res.kind == 6 && res.bits == srem(strip(left).bits, strip(right).bits))
 
 //@ func EvaluateBitAnd(left, right) (res, err)
+//@   isfunc
 //@   serves C05
 //@   ints bv
-//@   requires wfRV(strip(left)) && wfRV(strip(right)) && bothInt(strip(left), strip(right))
-//@   nopanic
-//@   ensures err == nil && res.kind == intResKind(strip(left), strip(right)) && res.bits == strip(left).bits & strip(right).bits
+//@   panics_only_if !((wfRV(strip(left)) && wfRV(strip(right)) && bothInt(strip(left), strip(right))))
+//@   ensures ((wfRV(strip(left)) && wfRV(strip(right)) && bothInt(strip(left), strip(right)))) ==> (err == nil && res.kind == intResKind(strip(left), strip(right)) && res.bits == strip(left).bits & strip(right).bits)
 
 //@ func EvaluateBitOr(left, right) (res, err)
+//@   isfunc
 //@   serves C05
 //@   ints bv
-//@   requires wfRV(strip(left)) && wfRV(strip(right)) && bothInt(strip(left), strip(right))
-//@   nopanic
-//@   ensures err == nil && res.kind == intResKind(strip(left), strip(right)) && res.bits == strip(left).bits | strip(right).bits
+//@   panics_only_if !((wfRV(strip(left)) && wfRV(strip(right)) && bothInt(strip(left), strip(right))))
+//@   ensures ((wfRV(strip(left)) && wfRV(strip(right)) && bothInt(strip(left), strip(right)))) ==> (err == nil && res.kind == intResKind(strip(left), strip(right)) && res.bits == strip(left).bits | strip(right).bits)
 
 // `+`: numbers add; as soon as a string is involved it concatenates (numbers %d / %f, bool %v, time RFC3339)
 //@ func EvaluateAddition(left, right) (res, err)
+//@   isfunc
 //@   serves C05
 //@   ints bv
-//@   requires wfRV(strip(left)) && wfRV(strip(right))
-//@   requires (isNum(strip(left)) && isNum(strip(right))) || (class(strip(left)) == 4 && class(strip(right)) != 0)
-//@         || (isNum(strip(left)) && class(strip(right)) == 4)
-//@   nopanic
-//@   ensures err == nil
-//@   ensures bothInt(strip(left), strip(right)) ==> res.kind == intResKind(strip(left), strip(right)) && res.bits == strip(left).bits + strip(right).bits
-//@   ensures anyFloat(strip(left), strip(right)) ==> res.kind == 14 && res.f == toF(strip(left)) + toF(strip(right))
-//@   ensures class(strip(left)) == 4 && class(strip(right)) == 4 ==> res.kind == 24 && res.s == strip(left).s + strip(right).s
-//@   ensures class(strip(left)) == 4 && isNum(strip(right)) ==> res.kind == 24 && res.s == strip(left).s + fmtNum(strip(right))
-//@   ensures isNum(strip(left)) && class(strip(right)) == 4 ==> res.kind == 24 && res.s == fmtNum(strip(left)) + strip(right).s
-//@   ensures class(strip(left)) == 4 && class(strip(right)) == 5 ==> res.kind == 24 && res.s == strip(left).s + fmt_v_Bool(strip(right).b)
-//@   ensures class(strip(left)) == 4 && class(strip(right)) == 6 ==> res.kind == 24 && res.s == strip(left).s + time_format(strip(right).tm, "2006-01-02T15:04:05Z07:00")
+//@   panics_only_if !((wfRV(strip(left)) && wfRV(strip(right))) && ((isNum(strip(left)) && isNum(strip(right))) || (class(strip(left)) == 4 && class(strip(right)) != 0) || (isNum(strip(left)) && class(strip(right)) == 4)))
+//@   ensures ((wfRV(strip(left)) && wfRV(strip(right))) && ((isNum(strip(left)) && isNum(strip(right))) || (class(strip(left)) == 4 && class(strip(right)) != 0) || (isNum(strip(left)) && class(strip(right)) == 4))) ==> (err == nil)
+//@   ensures ((wfRV(strip(left)) && wfRV(strip(right))) && ((isNum(strip(left)) && isNum(strip(right))) || (class(strip(left)) == 4 && class(strip(right)) != 0) || (isNum(strip(left)) && class(strip(right)) == 4))) ==> (bothInt(strip(left), strip(right)) ==> res.kind == intResKind(strip(left), strip(right)) && res.bits == strip(left).bits + strip(right).bits)
+//@   ensures ((wfRV(strip(left)) && wfRV(strip(right))) && ((isNum(strip(left)) && isNum(strip(right))) || (class(strip(left)) == 4 && class(strip(right)) != 0) || (isNum(strip(left)) && class(strip(right)) == 4))) ==> (anyFloat(strip(left), strip(right)) ==> res.kind == 14 && res.f == toF(strip(left)) + toF(strip(right)))
+//@   ensures ((wfRV(strip(left)) && wfRV(strip(right))) && ((isNum(strip(left)) && isNum(strip(right))) || (class(strip(left)) == 4 && class(strip(right)) != 0) || (isNum(strip(left)) && class(strip(right)) == 4))) ==> (class(strip(left)) == 4 && class(strip(right)) == 4 ==> res.kind == 24 && res.s == strip(left).s + strip(right).s)
+//@   ensures ((wfRV(strip(left)) && wfRV(strip(right))) && ((isNum(strip(left)) && isNum(strip(right))) || (class(strip(left)) == 4 && class(strip(right)) != 0) || (isNum(strip(left)) && class(strip(right)) == 4))) ==> (class(strip(left)) == 4 && isNum(strip(right)) ==> res.kind == 24 && res.s == strip(left).s + fmtNum(strip(right)))
+//@   ensures ((wfRV(strip(left)) && wfRV(strip(right))) && ((isNum(strip(left)) && isNum(strip(right))) || (class(strip(left)) == 4 && class(strip(right)) != 0) || (isNum(strip(left)) && class(strip(right)) == 4))) ==> (isNum(strip(left)) && class(strip(right)) == 4 ==> res.kind == 24 && res.s == fmtNum(strip(left)) + strip(right).s)
+//@   ensures ((wfRV(strip(left)) && wfRV(strip(right))) && ((isNum(strip(left)) && isNum(strip(right))) || (class(strip(left)) == 4 && class(strip(right)) != 0) || (isNum(strip(left)) && class(strip(right)) == 4))) ==> (class(strip(left)) == 4 && class(strip(right)) == 5 ==> res.kind == 24 && res.s == strip(left).s + fmt_v_Bool(strip(right).b))
+//@   ensures ((wfRV(strip(left)) && wfRV(strip(right))) && ((isNum(strip(left)) && isNum(strip(right))) || (class(strip(left)) == 4 && class(strip(right)) != 0) || (isNum(strip(left)) && class(strip(right)) == 4))) ==> (class(strip(left)) == 4 && class(strip(right)) == 6 ==> res.kind == 24 && res.s == strip(left).s + time_format(strip(right).tm, "2006-01-02T15:04:05Z07:00"))
 
 //@ func EvaluateLogicAnd(left, right) (res, err)
+//@   isfunc
 //@   serves C05
-//@   requires strip(left).kind == 1 && strip(right).kind == 1
-//@   nopanic
-//@   ensures err == nil && res.kind == 1 && res.b == (strip(left).b && strip(right).b)
+//@   panics_only_if !((strip(left).kind == 1 && strip(right).kind == 1))
+//@   ensures ((strip(left).kind == 1 && strip(right).kind == 1)) ==> (err == nil && res.kind == 1 && res.b == (strip(left).b && strip(right).b))
 
 //@ func EvaluateLogicOr(left, right) (res, err)
+//@   isfunc
 //@   serves C05
-//@   requires strip(left).kind == 1 && strip(right).kind == 1
-//@   nopanic
-//@   ensures err == nil && res.kind == 1 && res.b == (strip(left).b || strip(right).b)
+//@   panics_only_if !((strip(left).kind == 1 && strip(right).kind == 1))
+//@   ensures ((strip(left).kind == 1 && strip(right).kind == 1)) ==> (err == nil && res.kind == 1 && res.b == (strip(left).b || strip(right).b))
 
 //@ func EvaluateLogicSingle(left) (res, err)
+//@   isfunc
 //@   serves C05
-//@   requires strip(left).kind == 1
+//@   panics_only_if !((strip(left).kind == 1))
+//@   ensures ((strip(left).kind == 1)) ==> (err == nil && res.kind == 1 && res.b == strip(left).b)
+
+// ---- kind helpers (C04) ----
+//@ func GetBaseKind(val) (r)
+//@   serves C04
 //@   nopanic
-//@   ensures err == nil && res.kind == 1 && res.b == strip(left).b
+//@   ensures r == ite(isSignedK(val.kind), 6, ite(isUnsignedK(val.kind), 11, ite(isFloatK(val.kind), 14, val.kind)))
+//@ func IsNumber(val) (r)
+//@   serves C04
+//@   nopanic
+//@   ensures r == (isSignedK(val.kind) || isUnsignedK(val.kind) || isFloatK(val.kind))
+//@ func IsPointerToNumber(val) (r)
+//@   serves C04
+//@   nopanic
+//@   ensures r == (isSignedK(strip(val).kind) || isUnsignedK(strip(val).kind) || isFloatK(strip(val).kind))
